@@ -5,7 +5,7 @@
    translator reads out of eval.rs / pst.rs (every entry within +-200, piece values within 0..900), at most 16 men
    a side, one kind per square and the phase formula: |eval| <= 400000 < MATE_SCORE - MAX_DEPTH = 999872. *)
 From Coq Require Import NArith ZArith List Bool.
-From Rawr Require Import Consts Bits Magic Position Eval EvalFacts Abs BoundFacts.
+From Rawr Require Import Consts Bits Magic Position Eval MoveGen MakeMove EvalFacts Abs BoundFacts Closure MenCount.
 Local Open Scope Z_scope.
 
 (* move counters, castling rights and files, en-passant state, key, Chess960 flag and turn flag are never read *)
@@ -32,7 +32,14 @@ Proof. exact eval_bounded. Qed.
 Example C17_bound_example : in_D startpos = true /\ in_D (MakeMove.makenull startpos) = true.
 Proof. split; vm_compute; reflexivity. Qed.
 
+(* the bound holds on every position reached by generated legal moves from a position satisfying the invariant: neither
+   side's number of men ever grows (MenCount.v), so `Men16` is kept *)
+Theorem C17_eval_bounded_along_play : forall u p m, Inv16 p -> In m (legal_moves p) -> in_check_them (makemove u p m) = false ->
+  Inv16 (makemove u p m) /\ Z.abs (eval (makemove u p m)) <= 400000.
+Proof. intros u p m I Hm Hl. pose proof (inv16_step u p m I Hm Hl) as I'. split; [exact I'|exact (inv16_eval _ I')]. Qed.
+
 Print Assumptions C17_eval_reads_boards_only.
 Print Assumptions C17_eval_inside_mate_range.
 Print Assumptions C17_eval_bounded.
 Print Assumptions C17_eval_antisym.
+Print Assumptions C17_eval_bounded_along_play.
